@@ -412,7 +412,6 @@ def scenarios(tier):
     scn = HbScenario('hb/async-never-answers', prog, silent=[],
                      passes=[T0 + 1, T0 + 5],
                      results={'a': ['N'], 'b': ['S']})
-    scn.async_never = True
     jobs.append((scn, 1 if quick else 3, 40 if quick else 900, 1))
     # integrity check
     ip = items_prog(2)
